@@ -11,4 +11,4 @@ cd /verif
 for c in "$@"; do VERIF_REPO="$wt" VERIF_EVIDENCE_DIR=/tmp/mut_evidence ./check $c 2>&1 | grep -v KNOWN | tail -2; done
 git -C /repo worktree remove --force "$wt"; rm -rf "$wt"
 # restore the generated tables for /repo
-(cd /verif && /venv/bin/python gen/extract.py >/dev/null 2>&1)
+(cd /verif && /venv/bin/python gen/extract.py >/dev/null 2>&1; /venv/bin/python gen/py2lean.py >/dev/null 2>&1)
